@@ -211,10 +211,18 @@ pub fn exec_case(prop: &'static str, idx: u64, c: &Case, out: &mut CaseOut, coun
     if idx < 3 { out.sample = Some(json!({"idx": idx, "labels": c.labels, "bytes": c.bytes.len(), "cfg": c.cfg.name()})); }
 }
 
+/// files of a directory as cases (artifacts of the libFuzzer lane are re-judged by the ordinary worker and monitors)
+fn dir_cases(dir: &str) -> Vec<std::path::PathBuf> { let mut v: Vec<_> = std::fs::read_dir(dir).map(|d| d.filter_map(|e| e.ok()).map(|e| e.path()).collect()).unwrap_or_default(); v.sort(); v }
+
 pub fn worker(_tier: Tier, seed: u64) -> CaseFn<'static> {
     let sd = seeds();
+    let files = std::env::var("C01_FILES_DIR").ok().map(|d| dir_cases(&d));
     Box::new(move |idx, out, counters| {
-        let c = make_case(&sd, seed, idx);
+        let c = match &files {
+            Some(fs) => { let bytes = fs.get(idx as usize).and_then(|p| std::fs::read(p).ok()).unwrap_or_default(); let cfg = CFGS[bytes.len() % 4];
+                Case { labels: format!("fuzz-artifact:{}", fs.get(idx as usize).map(|p| p.file_name().unwrap().to_string_lossy().to_string()).unwrap_or_default()), bytes, password: vec![], cfg, deep: false } }
+            None => make_case(&sd, seed, idx),
+        };
         exec_case("C01", idx, &c, out, counters);
     })
 }
@@ -241,6 +249,18 @@ pub fn run(run: &Run) {
             let m = run.n(0, 60_000);
             crate::sup::run_cases_lane(run, "C01", 0, m, 100, &|idx| describe_case(&sd, seed, idx), &crate::lanes::env_for("asan", &exe), "asan");
             run.add("asan_lane_cases", m);
+        }
+        // libFuzzer lane: coverage-guided; whatever it saves as an artifact is re-judged by the ordinary worker
+        let mut fz: Vec<(String, Vec<u8>)> = sd.files.iter().filter(|f| f.bytes.len() < 100_000).map(|f| (f.name.clone(), f.bytes.clone())).collect();
+        for (i, b) in sd.rich.iter().enumerate() { fz.push((format!("rich{}", i), b.clone())); }
+        for (l, b) in crate::props::c14::specials() { if b.len() < 100_000 { fz.push((l, b)); } }
+        let secs = run.n(0, 600);
+        if let Some(art) = crate::lanes::fuzz(run, secs, &fz) {
+            let n_art = dir_cases(&art).len() as u64;
+            if n_art > 0 {
+                let env = vec![("C01_FILES_DIR".to_string(), art.clone())];
+                crate::sup::run_cases_lane(run, "C01", 0, n_art, 1, &|idx| { let f = dir_cases(&art); (format!("fuzz-artifact"), json!({"input_file": f.get(idx as usize).map(|p| p.to_string_lossy().to_string())})) }, &env, "");
+            }
         }
     }
 }
